@@ -22,13 +22,15 @@ Record variant := { cond_unban : bool;      (* spawned unban deletes only a reco
                     keep_stronger : bool;   (* banIP never replaces a ban by a weaker one *)
                     anon_resets : bool;     (* handleFirstConnection calls RecordSuccess (clears the failure record
                                                although no credential was proven) *)
+                    skip_gate_p2 : bool;    (* gate 2 is skipped for phase-2 messages ("the connection passed the check
+                                               when its challenge was issued"): kept to state the refuted variant *)
                     first_match : N }.      (* 0: IsAllowed refuses iff SOME matching blacklist record is in force
                                                (findActiveInList); 1, 2: it judges by the FIRST matching record only
                                                (findInList: the exact key, then the ranges in map order - order 1 or 2) *)
 Definition current_variant :=
-  {| cond_unban := true; keep_stronger := true; anon_resets := false; first_match := 0%N |}.
+  {| cond_unban := true; keep_stronger := true; anon_resets := false; skip_gate_p2 := false; first_match := 0%N |}.
 Definition pinned_variant :=
-  {| cond_unban := false; keep_stronger := false; anon_resets := true; first_match := 1%N |}.
+  {| cond_unban := false; keep_stronger := false; anon_resets := true; skip_gate_p2 := false; first_match := 1%N |}.
 
 Record cfg := { maxf : Z; window : Z; band : Z; perm : Z;      (* BruteForceConfig *)
                 rate : Z; burst : Z; ttl : Z; tps : Z }.       (* RateLimitConfig (ip level); ticks per second *)
@@ -114,24 +116,27 @@ Record sh := { now : Z;
                bans : emap;   pend : list N;          (* bannedIPs; spawned `go UnbanIP(ip)` not yet run *)
                bl : emap;     pendbl : list N;        (* blacklist; spawned `go RemoveFromBlacklist(ip)` not yet run *)
                wl : N -> bool;
-               bk : N -> option bucket }.
+               bk : N -> option bucket;
+               chal : N -> bool }.                    (* connection id -> a challenge is pending on it (conn.SetPendingChallenge) *)
 
 Definition set_now (s : sh) (t : Z) : sh :=
-  {| now := t; fails := fails s; bans := bans s; pend := pend s; bl := bl s; pendbl := pendbl s; wl := wl s; bk := bk s |}.
+  {| now := t; fails := fails s; bans := bans s; pend := pend s; bl := bl s; pendbl := pendbl s; wl := wl s; bk := bk s; chal := chal s |}.
 Definition set_fails (s : sh) f : sh :=
-  {| now := now s; fails := f; bans := bans s; pend := pend s; bl := bl s; pendbl := pendbl s; wl := wl s; bk := bk s |}.
+  {| now := now s; fails := f; bans := bans s; pend := pend s; bl := bl s; pendbl := pendbl s; wl := wl s; bk := bk s; chal := chal s |}.
 Definition set_bans (s : sh) b p : sh :=
-  {| now := now s; fails := fails s; bans := b; pend := p; bl := bl s; pendbl := pendbl s; wl := wl s; bk := bk s |}.
+  {| now := now s; fails := fails s; bans := b; pend := p; bl := bl s; pendbl := pendbl s; wl := wl s; bk := bk s; chal := chal s |}.
 Definition set_bl (s : sh) b p : sh :=
-  {| now := now s; fails := fails s; bans := bans s; pend := pend s; bl := b; pendbl := p; wl := wl s; bk := bk s |}.
+  {| now := now s; fails := fails s; bans := bans s; pend := pend s; bl := b; pendbl := p; wl := wl s; bk := bk s; chal := chal s |}.
 Definition set_wl (s : sh) w : sh :=
-  {| now := now s; fails := fails s; bans := bans s; pend := pend s; bl := bl s; pendbl := pendbl s; wl := w; bk := bk s |}.
+  {| now := now s; fails := fails s; bans := bans s; pend := pend s; bl := bl s; pendbl := pendbl s; wl := w; bk := bk s; chal := chal s |}.
+Definition set_chal (s : sh) c : sh :=
+  {| now := now s; fails := fails s; bans := bans s; pend := pend s; bl := bl s; pendbl := pendbl s; wl := wl s; bk := bk s; chal := c |}.
 Definition set_bk (s : sh) b : sh :=
-  {| now := now s; fails := fails s; bans := bans s; pend := pend s; bl := bl s; pendbl := pendbl s; wl := wl s; bk := b |}.
+  {| now := now s; fails := fails s; bans := bans s; pend := pend s; bl := bl s; pendbl := pendbl s; wl := wl s; bk := b; chal := chal s |}.
 
 Definition init_sh : sh :=
   {| now := 0; fails := fun _ => None; bans := fun _ => None; pend := []; bl := fun _ => None; pendbl := [];
-     wl := fun _ => false; bk := fun _ => None |}.
+     wl := fun _ => false; bk := fun _ => None; chal := fun _ => false |}.
 
 (* list keys that match an address (IPManager.findInList / findActiveInList): its exact key and the CIDR entries
    containing it.  Addresses are numbers < 1000; address a lies in the /28 with key 1000 + a/16 and in the /27
@@ -169,15 +174,27 @@ Definition allowed_dec (V : variant) (s : sh) (ip : N) : list N * bool :=
    temporary record lives exactly until its expiry (storage TTL) and a permanent one has no expiry *)
 Definition restart (s : sh) : sh :=
   {| now := now s; fails := fun _ => None; bans := fun _ => None; pend := [];
-     bl := sweep (now s) (bl s); pendbl := []; wl := wl s; bk := fun _ => None |}.
+     bl := sweep (now s) (bl s); pendbl := []; wl := wl s; bk := fun _ => None; chal := fun _ => false |}.
 
 (* ---------- calls and threads ---------- *)
 (* handshake shapes: unknown client id (ClientID <> 0) | ClientID = 0 with a token the handler accepts as a first
    connection, credential generation ok / failing | ClientID = 0 with any other token (step 4 does not register;
    the lookup of client 0 fails).  EVERY ClientID = 0 handshake passes gate 3, whatever its token. *)
-Inductive hkind := HBad | HAnonOk | HAnonFail | HZeroJunk.
-Definition hk_anon (k : hkind) : bool := match k with HBad => false | _ => true end.
-Definition hk_fails (k : hkind) : bool := match k with HAnonOk => false | _ => true end.
+Inductive hkind :=
+| HBad | HAnonOk | HAnonFail | HZeroJunk
+| HP1 (c : N)                   (* known client, phase 1 on connection c: a challenge is issued and kept on the connection *)
+| HP2 (c : N) (good : bool).    (* phase 2 on connection c: the response to its pending challenge, correct or not *)
+Definition hk_anon (k : hkind) : bool := match k with HAnonOk | HAnonFail | HZeroJunk => true | _ => false end.
+(* the message MAY record a failure (static upper bound used for counting) *)
+Definition hk_fails (k : hkind) : bool := match k with HAnonOk | HP1 _ => false | _ => true end.
+(* ... and does, in this state: phase 2 fails without a pending challenge on ITS connection or with a wrong response *)
+Definition auth_fails (k : hkind) (s : sh) : bool :=
+  match k with
+  | HAnonOk | HP1 _ => false
+  | HP2 c good => negb (chal s c && good)
+  | _ => true
+  end.
+Definition is_p2 (k : hkind) : bool := match k with HP2 _ _ => true | _ => false end.
 
 Inductive call :=
 | CFail (ip : N) | CSucc (ip : N) | CQuery (ip : N) | CBan (ip : N) (dur : Z) | CUnban (ip : N) | CCleanup
@@ -187,7 +204,7 @@ Inductive call :=
 | CRestart.
 
 (* results appended to a program's log: 0/1 booleans; handshake: 0 blacklisted, 1 banned, 2 rate-limited,
-   3 authentication failed, 4 success *)
+   3 authentication failed, 4 success, 5 challenge issued *)
 Inductive pc :=
 | PIdle
 | PFailB (ip : N) (d : decision) (res : N)       (* RecordFailure between p.mu.Unlock() and banIP *)
@@ -273,8 +290,11 @@ Section Step.
     | PCleanB now0 => (PIdle, set_bans s (sweep now0 (bans s)) (pend s), Some 0%N)
     | PHs2 ip k =>
         (* gate 2: bruteForceProtector.IsBanned *)
+        (* evaluated for EVERY handshake message: phase 1, phase 2 and first connections alike; the ban is per
+           address, whatever the state of the connection the message arrives on *)
         let nxt := if hk_anon k then PHs3 ip k else PHsAuth ip k in
-        if has_expired (now s) (bans s) ip
+        if skip_gate_p2 V && is_p2 k then (nxt, s, None)
+        else if has_expired (now s) (bans s) ip
         then (nxt, set_bans s (bans s) (pend s ++ [ip]), None)
         else if is_banned s ip then (PIdle, s, Some 1%N) else (nxt, s, None)
     | PHs3 ip k =>
@@ -283,9 +303,16 @@ Section Step.
         let s' := set_bk s (upd (bk s) ip (Some b)) in
         if ok then (PHsAuth ip k, s', None) else (PIdle, s', Some 2%N)
     | PHsAuth ip k =>
-        if hk_fails k then do_fail_a s ip 3%N 3%N
-        else (* handleFirstConnection succeeded *)
-          (PIdle, if anon_resets V then set_fails s (upd (fails s) ip None) else s, Some 4%N)
+        match k with
+        | HP1 c => (PIdle, set_chal s (upd (chal s) c true), Some 5%N)      (* handleChallengePhase1 *)
+        | _ =>
+          (* handleChallengePhase2 clears the pending challenge of ITS connection before verifying *)
+          let s0 := match k with HP2 c _ => set_chal s (upd (chal s) c false) | _ => s end in
+          if auth_fails k s then do_fail_a s0 ip 3%N 3%N
+          else (* verified response: RecordSuccess; first connection: no reset (unless the pinned variant) *)
+            (PIdle, if (match k with HP2 _ _ => true | _ => anon_resets V end)
+                    then set_fails s0 (upd (fails s0) ip None) else s0, Some 4%N)
+        end
     end.
 
   Definition tstep (l : lo) (s : sh) : lo * sh :=
